@@ -652,20 +652,25 @@ def reload_stage(ctx, replay_obj=None):
                 cur = to
         hists.append(h)
     script = {"histories": hists}
-    try:
-        trace = record(script, "reload")
-    except EngineCrash as c:
-        # the engine process dying while transactions are handled during a reload is itself an observation (no transaction of
-        # the history got its answer); it counts once it happens again on a re-run
-        for attempt in range(5):
-            try:
-                record(script, "reload-recrash")
-            except EngineCrash as c2:
-                ctx.violation({"class": "engine-process-crashed", "level": "spoe-handler-reload", "message": str(c2)[:200]},
-                              {"stage": "reload", "harness": "c18h", "script": script, "first_message": str(c), "schedule_dependent": True,
-                               "crash": True})
-                return
-        raise Broken("engine crash during the reload stage not reproduced in 5 runs: %s" % c)
+    # the engine process dying while transactions are handled during a reload is itself an observation (no transaction of the
+    # history got its answer); it counts once the same script misbehaves again - dies again, or is rejected by the specification
+    trace, first_crash = None, None
+    for attempt in range(6):
+        try:
+            t = record(script, "reload" if attempt == 0 else "reload-recrash")
+        except EngineCrash as c:
+            if first_crash is None:
+                first_crash = str(c)
+                continue
+            ctx.violation({"class": "engine-process-crashed", "level": "spoe-handler-reload", "message": str(c)[:200]},
+                          {"stage": "reload", "harness": "c18h", "script": script, "first_message": first_crash, "schedule_dependent": True,
+                           "crash": True})
+            return
+        trace = t
+        if first_crash is None or judge_reload(t, "reload-recrash-judge")[1]:
+            break
+    if trace is None or (first_crash is not None and not judge_reload(trace, "reload-recrash-judge")[1]):
+        raise Broken("engine crash during the reload stage not reproduced in 5 runs (and the re-runs were accepted): %s" % first_crash)
     acc, rejected, _ = judge_reload(trace, "reload")
     ctx.cov["traces_validated_against_impl"] += acc
     ntx = sum(e.get("n", 0) for e in trace if e.get("op") == "req")
